@@ -34,6 +34,9 @@
 (*   - lastQ advances along the array without wrapping;                    *)
 (*   - the Blocking wait loop re-takes the lock without re-checking        *)
 (*     `discarded`.                                                        *)
+(* QuirkLenDrift / QuirkNoDiscardRecheck = TRUE model the code as it is;   *)
+(* FALSE models the repair proposed for the two findings (len counts       *)
+(* occupied slots only; `discarded` re-checked after the wait loop).       *)
 (* Named deviations (model non-vacuity, must be caught by TLC):            *)
 (*   BugClearAlways - RunLock2 clears the slot without comparing with b    *)
 (*   BugKeepOld     - Put keeps whatever the slot holds (drops "|| older") *)
@@ -48,7 +51,9 @@ CONSTANTS Cap,            \* cacheSize
           Blocking,       \* OperationMode
           WithExternal, WithDiscard, WithRequester,
           PeerH,          \* Requester: height of the peers
-          BugClearAlways, BugKeepOld
+          BugClearAlways, BugKeepOld,
+          QuirkLenDrift,          \* TRUE = the code as it is: len++ on every insertion, len-- on every RunLock2
+          QuirkNoDiscardRecheck   \* TRUE = the code as it is: the Blocking wait loop does not look at `discarded` after re-locking
 
 VARIABLES chainH,                   \* the ledger
           ring, lastQ, len,         \* bq.queue (0 = nil), bq.lastQ, bq.len
@@ -119,7 +124,7 @@ Insert(p) ==
         take == ring[pos] = 0 \/ (~BugKeepOld /\ ring[pos] < i)
         r2   == IF take THEN [ring EXCEPT ![pos] = i] ELSE ring
     IN  /\ ring' = r2
-        /\ len' = IF take THEN len + 1 ELSE len
+        /\ len' = IF take /\ (QuirkLenDrift \/ ring[pos] = 0) THEN len + 1 ELSE len
         /\ lastQ' = IF take THEN AdvLastQ(r2, lastQ, pos) ELSE lastQ
         /\ eff' = IF Effective(i, ph[p]) THEN eff \cup {i} ELSE eff
         /\ IF closed THEN panicked' = TRUE /\ sig' = sig       \* send on a closed channel
@@ -151,7 +156,10 @@ BWaitLocked(p) ==
     /\ ppc[p] = "bchk"
     /\ last' = L("block", p, pidx[p])
     /\ UNCHANGED <<chainH, closed, discarded, ph, pidx, rpc, rh, rb, rlast, nputs>>
-    /\ IF ph[p] + Cap >= pidx[p]
+    /\ IF ph[p] + Cap >= pidx[p] /\ ~QuirkNoDiscardRecheck /\ discarded
+       THEN /\ ppc' = [ppc EXCEPT ![p] = "idle"]                 \* (repaired code only) discarded meanwhile
+            /\ UNCHANGED <<ring, lastQ, len, sig, eff, panicked>>
+       ELSE IF ph[p] + Cap >= pidx[p]
        THEN /\ ppc' = [ppc EXCEPT ![p] = "idle"]
             /\ Insert(p)                                         \* `discarded` is not looked at again
        ELSE /\ ppc' = [ppc EXCEPT ![p] = "bwait"]
@@ -216,7 +224,7 @@ RunAdd ==
 
 RunLock2 ==
     /\ rpc = "lock2"
-    /\ len' = len - 1
+    /\ len' = IF QuirkLenDrift \/ ring[Pos(rh + 1)] = rb THEN len - 1 ELSE len
     /\ ring' = IF BugClearAlways \/ ring[Pos(rh + 1)] = rb THEN [ring EXCEPT ![Pos(rh + 1)] = 0] ELSE ring
     /\ rpc' = "readH"
     /\ last' = L("lock2", "", 0)
@@ -288,7 +296,7 @@ Converges == <>[](discarded \/ panicked \/ (chainH + 1) \notin eff)
 
 \* secondary (feeds LastQueued): `len` is the number of occupied slots (plus the block the runner is
 \* applying, when a newer block already took its slot)
-InHand == IF rpc \in {"add", "lock2"} /\ ring[Pos(rh + 1)] # rb THEN 1 ELSE 0
+InHand == IF QuirkLenDrift /\ rpc \in {"add", "lock2"} /\ ring[Pos(rh + 1)] # rb THEN 1 ELSE 0
 LenExact == ~discarded => len = Occupied + InHand
 \* Requester: the node never asks again although its peers are ahead
 Starved == WithRequester /\ Quiescent /\ chainH < PeerH /\ CapLeft = 0
